@@ -11,13 +11,18 @@
        share any fixture instance of scope "test";
     2. two variants whose parameter sets bind the same names are THE SAME test specification up to the name: same rank,
        disabled value, dependencies, fixture names;
-    3. because the variants share the rank of their declaration, the hypothesis `DistinctSiblingRanks` of
-       `C05.view_independent_of_arrival_order` does NOT hold for a suite with a parametrized test of two or more sets: the
-       order of the variants in the report is the order in which their first events ARRIVE (refutation below, open finding
-       `C05/order-depends-on-schedule/parametrized-variants`).  Everything else of the report — the content of every test,
-       the place of the group among its siblings — is covered by the theorems of `Props/C05.lean` unchanged.
+    3. since fix N5 (`_load_parametrized_tests`: `rank = md.rank + idx / (idx + 1)`) every variant has a rank of its own: the
+       variants of one declaration are strictly increasing in parameter-set order and stay between their declaration's rank
+       and the next one (`variants_keep_parameter_set_order`, `variants_have_pairwise_distinct_ranks`,
+       `variants_stay_at_their_declaration`); the tests of a loaded suite whose declarations have pairwise distinct ranks
+       (what the decoration counter gives) are strictly increasing, and so are the natural-number ranks the run-level project,
+       the events and the report carry (`loaded_suite_tests_strictly_ranked`, `loaded_suite_sibling_ranks_distinct`): the
+       hypothesis `DistinctSiblingRanks` of `C05.view_independent_of_arrival_order` / `report_independent_of_schedule` /
+       `n_threads_equals_one_thread` holds for the tests of every loaded suite, parametrized ones included.  Before the fix
+       all the variants shared one rank and the report listed them in ARRIVAL order (finding N5, now `fixed`; the
+       two-arrival-orders example of equal ranks stays in `C05.equal_ranks_view_depends_on_arrival_order`).
 -/
-import LccModel.Lemmas.ExpandDeco
+import LccModel.Lemmas.ExpandRank
 import LccModel.Props.C01Expand
 import LccModel.Props.C03Decl
 import LccModel.Props.C05
@@ -87,24 +92,63 @@ theorem variants_differ_by_name_only (d : TestDecl) (t₁ t₂ : Test) (h₁ : t
   unfold toSpecTest
   simp only [d1, d2, p1, p2, r1, r2, hf]
 
-/-- in particular all the variants of a declaration have its rank -/
-theorem variants_share_the_rank (d : TestDecl) (t₁ t₂ : Test) (h₁ : t₁ ∈ expand d) (h₂ : t₂ ∈ expand d) : t₁.rank = t₂.rank := by
-  rw [(C01Expand.expansion_inherits d t₁ h₁).2.2.2.2.2, (C01Expand.expansion_inherits d t₂ h₂).2.2.2.2.2]
+/-! ### 3. Ranks: every test of a loaded suite has a rank of its own -/
 
-/-! ### 3. Refutation: the order of the variants in the report is their arrival order -/
+/-- **The variants of one declaration keep the order of the parameter sets**: along `expand d` (= parameter-set order) the
+    loaded ranks are strictly increasing. -/
+theorem variants_keep_parameter_set_order (d : TestDecl) : (expand d).Pairwise (fun a b => keyLt a b = true) :=
+  expand_pairwise d
+
+/-- … in particular pairwise distinct -/
+theorem variants_have_pairwise_distinct_ranks (d : TestDecl) : ((expand d).map Test.key).Nodup := by
+  rw [List.Nodup, List.pairwise_map]
+  exact (expand_pairwise d).imp (fun h => keyLt_ne h)
+
+/-- … and all of them stay at their declaration: the integer part of the rank is the declaration's rank, so they sort
+    after everything declared before and before everything declared after -/
+theorem variants_stay_at_their_declaration (d : TestDecl) (t : Test) (ht : t ∈ expand d) : t.rank = d.rank :=
+  rank_of_mem_expand ht
+
+/-- a variant compared with a test of ANOTHER declaration: the declarations' ranks decide -/
+theorem variants_ordered_as_their_declarations (d₁ d₂ : TestDecl) (t₁ t₂ : Test) (h₁ : t₁ ∈ expand d₁) (h₂ : t₂ ∈ expand d₂)
+    (h : d₁.rank < d₂.rank) : keyLt t₁ t₂ = true :=
+  keyLt_iff.mpr (.inl (by rw [rank_of_mem_expand h₁, rank_of_mem_expand h₂]; exact h))
+
+/-- **The tests of a loaded suite are strictly ranked** when its declarations have pairwise distinct ranks (the decoration
+    counter never gives a rank twice): in load order, strictly increasing — parametrized declarations included. -/
+theorem loaded_suite_tests_strictly_ranked (h : ClsHead) (tests : List TestDecl) (subs : List SuiteDecl) (s : Suite)
+    (hl : loadSuite (.mk h tests subs) = .ok s) (hn : (tests.map (·.rank)).Nodup) :
+    s.tests.Pairwise (fun a b => keyLt a b = true) := by
+  rw [C01Expand.load_ok_is_expansion _ s hl, C01Expand.suite_tests_are_expansions]
+  exact flatMap_expand_pairwise _ (testOrder_strict tests hn)
+
+/-- **`DistinctSiblingRanks` for the tests of every loaded suite**: the natural-number ranks the runner's project carries
+    (and the writer copies into the report: `testRank`) are strictly increasing in load order, hence pairwise distinct —
+    the hypothesis under which `C05.view_independent_of_arrival_order`, `report_independent_of_schedule` and
+    `n_threads_equals_one_thread` give the one-thread view for every schedule. -/
+theorem loaded_suite_sibling_ranks_distinct (h : ClsHead) (tests : List TestDecl) (subs : List SuiteDecl) (s : Suite)
+    (hl : loadSuite (.mk h tests subs) = .ok s) (hn : (tests.map (·.rank)).Nodup) :
+    ((toSpec s).tests.map (·.rank)).Pairwise (· < ·) ∧ ((toSpec s).tests.map (·.rank)).Nodup := by
+  have hp := loaded_suite_tests_strictly_ranked h tests subs s hl hn
+  have : (toSpec s).tests = toSpecTests s.tests := by
+    cases s with
+    | mk hd ts ss => rw [toSpec]; rfl
+  rw [this]
+  exact ⟨toSpecTests_ranks_increasing _ hp, pairwise_lt_nodup _ (toSpecTests_ranks_increasing _ hp)⟩
+
+/-! ### Non-vacuity -/
 
 open LccModel.Expand.Sample in
-/-- **Open finding `C05/order-depends-on-schedule/parametrized-variants`**: the three variants of the sample declaration
-    `pay` all have rank 3; two tests of that rank whose first events arrive in the two possible orders (what two worker
-    threads can produce) give two different rank-sorted views — the stable sort falls back to arrival order. -/
-theorem parametrized_variants_view_depends_on_arrival_order :
-    (expand pay).map (·.rank) = [3, 3, 3] ∧
-    C05.viewNames (Writer.fold (C05.twoTests 3 3 true)) = [["a", "b"]] ∧
-    C05.viewNames (Writer.fold (C05.twoTests 3 3 false)) = [["b", "a"]] := by
-  refine ⟨by decide, by decide, by decide⟩
+/-- the three variants of the sample declaration `pay` (rank 3): keys (3,1) (3,2) (3,3); in the suite `payments` the run-level
+    ranks of the nine tests are 0..8 -/
+example : (expand pay).map Test.key = [(3, 1), (3, 2), (3, 3)] := by decide
+open LccModel.Expand.Sample in
+example : (match expandSuites [payments] with | [s] => (toSpec s).tests.map (fun t => (t.name, t.rank)) | _ => []) =
+    [("regular", 0), ("plain_disabled", 1), ("pay_1", 2), ("pay_2", 3), ("pay_3", 4), ("conv_1_x", 5), ("conv_-4_y", 6)] := by decide
 
-/-- with the variants' ranks made distinct (what the candidate repair `fixes/N5-…` does) both arrival orders give the
-    declaration order -/
+/-- what the order was made of BEFORE the fix (equal ranks: arrival order decides) and what distinct ranks give -/
+example : C05.viewNames (Writer.fold (C05.twoTests 3 3 true)) = [["a", "b"]] ∧ C05.viewNames (Writer.fold (C05.twoTests 3 3 false)) = [["b", "a"]] := by
+  decide
 example : C05.viewNames (Writer.fold (C05.twoTests 3 4 true)) = [["a", "b"]] ∧ C05.viewNames (Writer.fold (C05.twoTests 3 4 false)) = [["a", "b"]] := by
   decide
 
